@@ -63,6 +63,15 @@ def run(prop, tier, replay=None):
                 print("VIOLATION property=%s replay=%s  (%s; +%d similar)" % (prop, path, v["what"], v["more"]))
             print("C09 replay: proxied calls=%d, violations=%d" % (ncalls, len(pv)))
             return 1 if pv else 0
+        if replay and json.load(open(replay)).get("replay_driver") == "wssession":
+            from . import wssession as WS
+            rp = json.load(open(replay))
+            wv, wstat, _ = WS.violations(prop, tier, scratch, harness, rp.get("seed", seed), rp["cases"])
+            for key, v in sorted(wv.items(), key=str):
+                path = C.write_replay(prop, "wssession-%d" % (abs(hash(str(key))) % 100000), v)
+                print("VIOLATION property=%s replay=%s  (%s; +%d similar)" % (prop, path, v["what"], v["more"]))
+            print("C09 replay: WebSocket sessions=%d, violations=%d" % (wstat["sessions"], len(wv)))
+            return 1 if wv else 0
         if replay:
             rp = json.load(open(replay))
             design = dict(states=0, transitions=0, neg_guards=0)
@@ -195,6 +204,16 @@ def run(prop, tier, replay=None):
                     known[kf["id"]] += 1
                     continue
                 viol[("proxy",) + key] = v
+            # ---- WebSocket sessions at the frame level (WsSession.tla): a panic, a hang or a refused upgrade
+            from . import wssession as WS
+            wv, wstat, wdes = WS.violations(prop, tier, scratch, harness, seed)
+            other["ws_frame_sessions"], other["ws_frames"], other["ws_design_states"] = wstat["sessions"], wstat["frames"], wdes["states"]
+            for key, v in wv.items():
+                kf = C.match_finding(findings, prop, v["signature"])
+                if kf:
+                    known[kf["id"]] += 1
+                    continue
+                viol[("wssession",) + tuple(str(k) for k in key)] = v
             for src, sh, case, line, formula in other_fail:
                 ev = json.loads(open(sh).read().splitlines()[line - 1])
                 sig = dict(module=src, formula=formula, crash=str(ev.get("crash") or ev.get("panic") or "")[:60])
